@@ -43,7 +43,8 @@ class Acc:
               sig: str, what: str,
               replay: Callable[[Dict[str, Fraction]], str],
               extra_cond: Sequence[z3.BoolRef] = (),
-              shape_extra: Sequence[z3.BoolRef] = (), soft_fallback: bool = False) -> str:
+              shape_extra: Sequence[z3.BoolRef] = (), soft_fallback: bool = False,
+              always_soft: bool = False) -> str:
         """Ask `path.cond and extra_cond => goal`.  On `sat`, look for a shaped model and
         hand it to `replay` (which renders a standalone script)."""
         conds = [path.cond, *extra_cond]
@@ -66,7 +67,7 @@ class Acc:
         # soft_fallback: only a witness outside the preferred shape exists (e.g. inside the zone the
         # replay treats as a rounding tie); if the replay does not show it, it is inconclusive
         self.out["viol"].append((sig, f"{what} at { {k: str(v) for k, v in m.items()} }",
-                                 replay(m)) + (("soft",) if (fallback and soft_fallback) else ()))
+                                 replay(m)) + (("soft",) if ((fallback and soft_fallback) or always_soft) else ()))
         return "sat"
 
     def finish(self, case_selfchecked: int = 0) -> Dict[str, Any]:
